@@ -99,7 +99,14 @@ pub mod vthread {
         // the controller answers non-zero when it owns the clock (asking through `now_ns` here would
         // count as the timer thread looking at the time again)
         if super::note("timer.idle", dur.as_nanos() as usize, 0) != 0 {
-            std::thread::park_timeout(Duration::from_micros(100));
+            // virtual clock: sleep until the controller says that the clock has reached the wake-up time or that
+            // somebody has unparked this thread (a plain poll would hide a wake-up that the code forgets)
+            loop {
+                std::thread::park_timeout(Duration::from_micros(100));
+                if super::note("timer.poll", 0, 0) != 0 {
+                    break;
+                }
+            }
         } else {
             std::thread::park_timeout(dur)
         }
